@@ -53,7 +53,7 @@ FUNCTIONS.update({
   'ServerSet._notification_worker': dict(
     cls='ServerSet',
     locals={'work': 'tuple[set[str],set[str]]', 'new_nodes': 'set[str]', 'removed_nodes': 'set[str]', 'new_members': 'list[Member]',
-            'removed_member': 'Member?', 'm': 'any'},
+            'removed_member': 'Member?'},
     requires=['MembersWf(self)', 'allocated(self._notification_queue)', 'allocated(self._cb_blocker)'],
     ensures=[], raises={'GreenletExit': dict()},
     modifies=['dict[str,Member]', 'Member.g_left', 'Member.g_joined', '$cls', 'set[str]'], allocates='any',
